@@ -220,7 +220,7 @@ fn penalties_through_wrap(r: &mut Run, n: usize) -> Result<(), MachineryError> {
             for p in &pens {
                 for bw in [true, false] {
                     for (ii, si) in [("", ""), (">>", "\u{4f60}")] {
-                        let cfg = Cfg { width: w, sep: Sep::Uni, alg: Alg::Opt(*p), spl: Spl::Hyphen, bw, ii, si, crlf: false };
+                        let cfg = Cfg { entry: Entry::Ref, width: w, sep: Sep::Uni, alg: Alg::Opt(*p), spl: Spl::Hyphen, bw, ii, si, crlf: false };
                         let o = cfg.opts();
                         total!(cx, "C04-wrap-returns", cfg.d(), wrap(&text, &o));
                     }
